@@ -193,6 +193,11 @@ def run(ctx: Ctx):
     ctx.rule("R06.b", "the guard is elided only for a**-1 and for products of non-zero constants and accepted factors", floor=6)
     check_elision(ctx)
 
+    ctx.rule("R06.d", "sign(), which differentiation of abs() puts into the linearisation, is printed as a function that is 0 at 0 by every backend", floor=2)
+    from . import printers
+
+    printers.check_sign_printing(ctx, "R06.d")
+
     ctx.rule("R06.c", "the delta option reaches the guard from get_code through add_schemes", floor=5)
     ctx.check("delta" in m.func.params, "R06.c", m.func.key("delta-param"), "builder has a delta parameter", f"{m.func.name} has no delta parameter", m.func.where())
     check_delta_flow(ctx, "R06.c")
